@@ -121,6 +121,8 @@ impl Prop for C17 {
             6 => (word(), 0u8..64).prop_map(|(w, k)| WordCase::Sel64 { w, k }),
             3 => (word(), word(), 0u8..128).prop_map(|(a, b, k)| WordCase::Sel128 { w: (a as u128) << 64 | b as u128, k }),
             1 => proptest::collection::vec(word(), 0..24).prop_map(|data| WordCase::Pop { data }),
+            // long slices, also of one repeated word (saturated byte lanes: 0xFF in every word)
+            1 => (word(), word(), 0usize..600, 0u8..4).prop_map(|(a, b, n, mode)| WordCase::Pop { data: (0..n).map(|i| match mode { 0 => a, 1 => u64::MAX, 2 => a | 0xFF00_0000_00FF, _ => if i % 2 == 0 { a } else { b } }).collect() }),
             1 => prop_oneof![any::<u128>(), (0u32..128).prop_map(|i| 1u128 << i), (0u32..128).prop_map(|i| (1u128 << i) - 1), (0u32..127).prop_map(|i| (1u128 << i) + 1), Just(0u128), Just(u128::MAX)].prop_map(|v| WordCase::Msb { v }),
             2 => data(300).prop_map(|(ty, shift, data)| WordCase::Part4 { ty, shift, data }),
             2 => data(300).prop_map(|(ty, shift, data)| WordCase::Part2 { ty, shift, data }),
@@ -185,7 +187,7 @@ impl Prop for C17 {
                     ctx.q();
                     ensure!(g == e, "popcnt_wide::<{}> over {} words = {g}, expected {e}", $n, data.len());
                 )*}; }
-                pc!(1, 2, 3, 4, 5, 6, 7, 8, 16);
+                pc!(1, 2, 3, 4, 5, 6, 7, 8, 16, 31, 32, 33, 64, 100, 255, 256, 257, 1000);
             }
             WordCase::Msb { v } => {
                 ctx.label("msb");
